@@ -21,11 +21,12 @@ struct DynPorts : rtosc::Ports {
 };
 
 template <int L, int V> struct Node;
-struct NodeBase { bool en = true; int tag = 0; };
-template <int V> struct Node<2, V> : NodeBase { static PortsProxy ports; };
-template <int L, int V> struct Node : NodeBase {
+template <int V> struct Node<2, V> { static PortsProxy ports; bool en = true; int tag = 0; };
+template <int L, int V> struct Node {
   static PortsProxy ports;
-  Node<L + 1, 0> one;
+  Node<L + 1, 0> one;   // first member on purpose: a sub-object that lives at its parent's address
+  bool en = true;
+  int tag = 0;
   Node<L + 1, 1> *ptr = nullptr;
   Node<L + 1, 2> many[4];
   Node<L + 1, 3> *manyp[4] = {nullptr, nullptr, nullptr, nullptr};
@@ -56,10 +57,27 @@ template <int L, int V> struct Cbs {
   static cb_t recurptr() { return rRecurPtrCb(one); }
 #undef rObject
 };
-struct LeafCbs {
-#define rObject NodeBase
+template <int L, int V> struct TCb {
+  typedef Node<L, V> NodeT;
+#define rObject NodeT
   static cb_t toggle() { return rToggleCb(en); }
 #undef rObject
+};
+inline cb_t toggle_cb(int table) {
+  switch (table) {
+    case 0: return TCb<0, 0>::toggle();
+    case 1: return TCb<1, 0>::toggle(); case 2: return TCb<1, 1>::toggle(); case 3: return TCb<1, 2>::toggle(); case 4: return TCb<1, 3>::toggle();
+    case 5: return TCb<2, 0>::toggle(); case 6: return TCb<2, 1>::toggle(); case 7: return TCb<2, 2>::toggle(); default: return TCb<2, 3>::toggle();
+  }
+}
+inline bool &en_ref(int table, void *obj) {
+  switch (table) {
+    case 0: return ((Node<0, 0> *)obj)->en;
+    case 1: return ((Node<1, 0> *)obj)->en; case 2: return ((Node<1, 1> *)obj)->en; case 3: return ((Node<1, 2> *)obj)->en; case 4: return ((Node<1, 3> *)obj)->en;
+    case 5: return ((Node<2, 0> *)obj)->en; case 6: return ((Node<2, 1> *)obj)->en; case 7: return ((Node<2, 2> *)obj)->en; default: return ((Node<2, 3> *)obj)->en;
+  }
+}
+struct LeafCbs {
   static cb_t self() { return [](const char *, rtosc::RtData &d) { d.reply(d.loc, "b", sizeof(d.obj), &d.obj); }; }
 };
 enum Kind { LEAF = 0, RECUR = 1, RECURP = 2, RECURS = 3, RECURSP = 4 };
@@ -197,7 +215,7 @@ struct Instance {
         } else {
           p.ports = nullptr;
           int ii = (int)i;
-          cb_t inner = pp.role == 1 ? LeafCbs::toggle() : pp.role == 2 ? LeafCbs::self() : cb_t();
+          cb_t inner = pp.role == 1 ? toggle_cb(id) : pp.role == 2 ? LeafCbs::self() : cb_t();
           p.cb = leafcb ? leafcb(id, ii) : cb_t([this, id, ii, inner](const char *m, rtosc::RtData &d) {
             Seen s; s.table = id; s.port = ii; s.obj = d.obj; s.dport = d.port; s.idx0 = d.idx[0];
             if (d.loc) { s.loc = d.loc; s.has_loc = true; }
@@ -314,7 +332,7 @@ struct Instance {
       for (size_t i = 0; i < t.ports.size(); i++)
         if (t.ports[i].name == "self:") {
           std::string en = meta_get(t.ports[i].meta, "enabled by");
-          if (!en.empty() && !((NodeBase *)obj)->en) {
+          if (!en.empty() && !en_ref(table, obj)) {
             for (size_t k = 0; k < t.ports.size(); k++)
               if (t.ports[k].name.substr(0, t.ports[k].name.find(':')) == en) { out.push_back({table, (int)k, prefix + en, true}); break; }
             return;
@@ -334,7 +352,7 @@ struct Instance {
         if (runtime) {
           co = child_obj(table, obj, pp.kind, ex.second);
           if (!co) continue;
-          if (!meta_get(pp.meta, "enabled by").empty() && !((NodeBase *)obj)->en) continue;
+          if (!meta_get(pp.meta, "enabled by").empty() && !en_ref(table, obj)) continue;
         }
         model_walk(child, co, runtime, prefix + ex.first, out);
       }
